@@ -2,7 +2,7 @@
 # tools/store_seed.sh <Cxx> <tag> <demo file name in /tmp/mut/out/Cxx> — copy a confirmed seeded change into /verif/seeded/<Cxx>-<tag>/
 id="$1"; tag="$2"; demo="$3"
 d=/verif/seeded/$id-$tag; mkdir -p "$d"
-cp /tmp/mut/out/$id/patch.diff "$d/patch.diff"
-cp /tmp/mut/out/$id/$demo "$d/"
-cp /tmp/mut/out/$id/demo_path.txt /tmp/mut/out/$id/notes.md "$d/" 2>/dev/null
+cp ${MUTOUT:-/tmp/mut/out}/$id/patch.diff "$d/patch.diff"
+cp ${MUTOUT:-/tmp/mut/out}/$id/$demo "$d/"
+cp ${MUTOUT:-/tmp/mut/out}/$id/demo_path.txt ${MUTOUT:-/tmp/mut/out}/$id/notes.md "$d/" 2>/dev/null
 ls "$d"
